@@ -4,6 +4,7 @@ import StepModel.LazyScan
 import StepModel.LazyScanFile
 import StepModel.LazyScanGaps
 import StepModel.LazyEager
+import StepModel.LazyEagerMixed
 import StepModel.Props.C01
 /-!
 # C10 — the lazy loader sees the same file as the eager reader
@@ -986,6 +987,158 @@ theorem C10_materialise_at_recorded_offsets_partial (ops : FloatOps F) (lex : Le
     rw [← hd, List.length_drop]; omega
   rw [cs_length] at hlen
   omega
+
+/-! ### externally mapped records through the bridge: sections that mix both mappings -/
+
+theorem small_params : ∀ (ps : List (Param F)), Small (renderParams ps) → ∀ p ∈ ps, Small (p.before ++ (p.tok ++ p.after)) := by
+  intro ps
+  induction ps with
+  | nil => intro _ p hp; cases hp
+  | cons q t ih =>
+    intro hs p hp
+    cases t with
+    | nil =>
+      simp only [List.mem_cons, List.mem_nil_iff, or_false] at hp
+      subst hp
+      simp only [renderParams] at hs
+      intro b hb
+      apply hs b
+      simp only [List.mem_append] at hb ⊢
+      rcases hb with h | h | h
+      · exact Or.inl h
+      · exact Or.inr (Or.inl h)
+      · exact Or.inr (Or.inr (Or.inl h))
+    | cons q2 u =>
+      simp only [renderParams] at hs
+      rcases List.mem_cons.mp hp with h | h
+      · subst h
+        intro b hb
+        apply hs b
+        simp only [List.mem_append] at hb ⊢
+        rcases hb with h | h | h
+        · exact Or.inl h
+        · exact Or.inr (Or.inl h)
+        · exact Or.inr (Or.inr (Or.inl h))
+      · exact ih (hs.app.2.app.2.app.2.cons.2) p h
+
+/-- a part `KEYWORD blanks ( parameters ) blanks` of an externally mapped record is a sequence the lazy scanner passes, with the
+    references in the values the eager reader sets for the part -/
+theorem cpart_lseq (env : Env F) (c : CPart F) (hc : CPartCovered env c) (hs : Small c.text)
+    (hng : ∀ ed, env.dict.entity? c.name = some ed → ∀ a ∈ ed.ownAttrs, a.ty ≠ .aggr .generic) :
+    LSeq c.text (c.vals.flatMap valRefs) ∧ StepModel.isAlpha c.n0 = true := by
+  cases hc with
+  | params n0 ns sA sB hn0 hns hsA hsB ed hent ps hne hattrs hcov =>
+    refine ⟨?_, hn0⟩
+    have hsb : Small (renderParams ps) := by
+      have : Small (n0 :: (ns ++ (sA ++ 40 :: (renderParams ps ++ sB)))) := hs
+      exact this.cons.2.app.2.app.2.cons.2.app.1
+    have hsp := small_params ps hsb
+    have hlp : ∀ p ∈ ps, LazyParam p := by
+      intro p hp
+      refine C10_covered_param_lazy env p (hcov p hp) (hsp p hp) ?_
+      refine hng ed hent p.a ?_
+      rw [hattrs]; exact List.mem_map.mpr ⟨p, hp, rfl⟩
+    obtain ⟨X, hX, hL⟩ := params_lseq ps hne hlp
+    have hkw : (n0 :: ns).all lplain = true := by
+      apply all_lplain_of0 pw pw_lplain0
+      simp only [List.all_cons, Bool.and_eq_true]
+      refine ⟨?_, hns⟩
+      unfold pw StepModel.isAlnum; simp [hn0]
+    have hn := LSeq.nest X sB _ [] hL (lseq_plains sB (spaces_lplain sB hsB))
+    have := LSeq.plains_append _ hkw (LSeq.plains_append sA (spaces_lplain sA hsA) hn)
+    have e : CPart.text ({ n0 := n0, ns := ns, sA := sA, body := renderParams ps, sB := sB, vals := ps.map (·.v) } : CPart F) =
+        (n0 :: ns) ++ (sA ++ 40 :: (X ++ 41 :: sB)) := by simp [CPart.text, hX]
+    rw [e]
+    simpa [paramsRefs, List.flatMap_map] using this
+  | empty n0 ns sA sB hn0 hns hsA hsB ed hent hattrs inner hin =>
+    refine ⟨?_, hn0⟩
+    have hkw : (n0 :: ns).all lplain = true := by
+      apply all_lplain_of0 pw pw_lplain0
+      simp only [List.all_cons, Bool.and_eq_true]
+      refine ⟨?_, hns⟩
+      unfold pw StepModel.isAlnum; simp [hn0]
+    have hn := LSeq.nest inner sB [] [] (lseq_seps inner hin) (lseq_plains sB (spaces_lplain sB hsB))
+    have := LSeq.plains_append _ hkw (LSeq.plains_append sA (spaces_lplain sA hsA) hn)
+    have e : CPart.text ({ n0 := n0, ns := ns, sA := sA, body := inner ++ [41], sB := sB, vals := [] } : CPart F) =
+        (n0 :: ns) ++ (sA ++ 40 :: (inner ++ 41 :: sB)) := by simp [CPart.text]
+    rw [e]
+    simpa using this
+
+/-- what the lazy side asks of a record of either mapping of the eager reader's mixed file class, all of it about the bytes of the file
+    (and, for the parts of an externally mapped record, that no attribute is an aggregate of aggregates) -/
+def LazySideAny (env : Env F) : AnyRec F → Prop
+  | .simple rg => LazySide rg
+  | .complex r g => 0 < StepModel.digitsVal r.ds 0 ∧ idLen (cs r.ds) ≤ instanceIdDigits ∧
+      Small (r.ds ++ (r.s1 ++ (r.s2 ++ (renderCParts r.parts ++ r.s4)))) ∧ Small g ∧
+      ∀ c ∈ r.parts, ∀ ed, env.dict.entity? c.name = some ed → ∀ a ∈ ed.ownAttrs, a.ty ≠ .aggr .generic
+
+theorem small_cparts : ∀ (cs' : List (CPart F)), Small (renderCParts cs') → ∀ c ∈ cs', Small c.text := by
+  intro cs'
+  induction cs' with
+  | nil => intro _ c hc; cases hc
+  | cons x t ih =>
+    intro hs c hc
+    simp only [renderCParts] at hs
+    rcases List.mem_cons.mp hc with h | h
+    · rw [h]; exact hs.app.1
+    · exact ih hs.app.2 c h
+
+theorem lazyAny_of_covered (env : Env F) (a : AnyRec F) (hc : AnyRecCovered env a) (hl : LazySideAny env a) : LazyAny a := by
+  cases a with
+  | simple rg =>
+    obtain ⟨hlex, hg, _, _, _, _, hcov⟩ := hc
+    have h : LazySide rg := hl
+    exact ⟨hlex, ⟨h.up0, h.ups, h.pos, h.dlen,
+      fun p hp => C10_covered_param_lazy env p (hcov p hp) (h.smp p hp) (h.nogen p hp), h.sm⟩, hg, h.smg⟩
+  | complex r g =>
+    obtain ⟨hlex, hg, _, _, hcov⟩ := hc
+    obtain ⟨hpos, hdl, hsm, hsg, hng⟩ := hl
+    have hsp : Small (renderCParts r.parts) := hsm.app.2.app.2.app.2.app.1
+    have hparts := cparts_lseq (fun c : CPart F => c.vals.flatMap valRefs) r.parts
+      (fun c hcm => cpart_lseq env c (hcov c hcm) (small_cparts r.parts hsp c hcm) (hng c hcm))
+    exact ⟨hlex, ⟨hpos, hdl, hparts, hsm⟩, hg, hsg⟩
+
+/-- **the lazy index against the eager reader on sections that mix internally and externally mapped records** (`_partial`), between
+    the two models, on the same bytes.  For every file of the eager reader's `C01_read_file_mixed_partial` — records of either mapping in
+    any order, pairwise different ids, references forward and backward across both mappings, internally mapped entities with redeclared
+    attributes allowed — that satisfies the lazy side's byte conditions (`LazySideAny`): the eager model creates one instance per
+    record and the lazy scanner returns one index entry per record, in the same order, with the same instance id; an internally mapped
+    record is indexed under its keyword, an **externally mapped record under the empty keyword** (as `lazyInstMgr::addLazyInstance`
+    files it — the root of the kept finding `complex-referrer` of C11), and its forward references are the entity references in the
+    values the eager reader sets for its parts, part by part in file order (`anyEntry`, `crefs`); the section is accepted and the counts
+    agree.  Excluded: what `C01_read_file_mixed_partial` excludes (comments between the parts of an externally mapped record and around
+    their parentheses: finding `layout:comment@cx` of C01), aggregates of aggregates, lower-case keywords of internally mapped records,
+    `#0`, names with more than 20 significant digits, ids above INT_MAX, bytes ≥ 256, the source before `fixes/C10-7`. -/
+theorem C10_index_equals_eager_mixed_partial (ops : FloatOps F) (lex : LexCfg) (cfg : RWCfg) (d : Dict) (strict : Bool)
+    (hskip : cfg.skipInstanceSkipsComments = true) (hcri : lex.criSkipsComments = true) (hagg : cfg.aggrSkipsComments = true)
+    (hmc : cfg.missingCheckEverySecond = false) (hrep : cfg.complexReportsError = true)
+    (rs : List (AnyRec F)) (g0 sp gE after : List Nat) (hg0 : Seps g0) (hsp : sp.all StepModel.isSpace = true) (hgE : Seps gE)
+    (hnd : (rs.map (fun r => (r.item d).id)).Nodup)
+    (hrec : ∀ r ∈ rs, AnyRecCovered { ops := ops, lex := lex, cfg := cfg, dict := d,
+                                       lookup := Mgr.lookup d ({ insts := rs.map (fun r => (r.item d).mkI) } : Mgr F) } r)
+    (hraw : commentsRaw = true)
+    (hlz : ∀ r ∈ rs, LazySideAny { ops := ops, lex := lex, cfg := cfg, dict := d,
+                                    lookup := Mgr.lookup d ({ insts := rs.map (fun r => (r.item d).mkI) } : Mgr F) } r)
+    (hs0 : Small g0) (hssp : Small sp) :
+    ∃ res es,
+      readDataSection ops lex cfg d strict false
+        (g0 ++ renderItems (rs.map (AnyRec.item d)) (RLemmas.endsec sp (gE ++ (endIso ++ 59 :: after)))) = .ok res ∧
+      scan (cs (g0 ++ renderItems (rs.map (AnyRec.item d)) (RLemmas.endsec sp (gE ++ (endIso ++ 59 :: after))))) = .ok (es, true) ∧
+      es = rs.map anyEntry ∧
+      es.map (fun e => (e.id : Int)) = res.mgr.insts.map (·.id) ∧
+      es.length = res.created := by
+  obtain ⟨res, hres, hinsts, _, _, hcr, _⟩ :=
+    C01_read_file_mixed_partial ops lex cfg d strict hskip hcri hagg hmc hrep rs g0 sp gE after hg0 hsp hgE hnd hrec
+  have hany : ∀ a ∈ rs, LazyAny a := fun a ha => lazyAny_of_covered _ a (hrec a ha) (hlz a ha)
+  refine ⟨res, rs.map anyEntry, hres, scan_items hraw d rs hany g0 sp _ hg0 hs0 hsp hssp, rfl, ?_, ?_⟩
+  · rw [hinsts]
+    simp only [List.map_map]
+    apply List.map_congr_left
+    intro a _
+    cases a with
+    | simple rg => simp [Function.comp, anyEntry, recEntry, AnyRec.item, finInst, Rec.id]
+    | complex r g => simp [Function.comp, anyEntry, crecEntry, AnyRec.item, finCInst, mkCInst, CRec.id]
+  · rw [hcr]; simp
 
 /-! ### the hypotheses of the bridge theorem are satisfiable: a concrete file, every hypothesis discharged -/
 
